@@ -589,9 +589,12 @@ func vf38OverlapEpisode(r *verifkit.Run, f *vf38ConcFixture, rng *rand.Rand, ci,
 				r.Count("overlap_refused_while_same_key_was_in_flight", 1)
 			}
 			if admissible && q.verdict == "halt" {
-				if q.node.State == netmaprpc.NodeStateOffline.Int64() {
+				switch {
+				case q.node.State == netmaprpc.NodeStateOffline.Int64():
 					r.Count("overlap_refused_offline_state_without_state_validator", 1)
-				} else {
+				case len(q.node.Addrs) == 0:
+					r.Count("overlap_refused_candidate_without_addresses", 1)
+				default:
 					// not forbidden by the statement ("only if"), shown as evidence
 					r.Count("overlap_refused_although_admissible", 1)
 				}
